@@ -9,7 +9,7 @@ import yaml
 
 from .. import units as U
 from ..anf import is_zero, short
-from ..facts import (physics_seeds, tensor_seeds, KeyObj, KEYS21, CALC, VOLBASE, PRSBASE, V, T, PTV, PDES, VTP)
+from ..facts import (qha_attr_hook, physics_seeds, tensor_seeds, KeyObj, KEYS21, CALC, VOLBASE, PRSBASE, V, T, PTV, PDES, VTP)
 from ..fillmodel import PathV, FileV
 from ..libsum import lib_func, positional_params
 from ..model import dotted_name, src
@@ -87,9 +87,9 @@ def setup(ctx, model):
 
     intr.update({"qha.v2p.v2p": v2p_intrinsic, "qha.basic_io.out.save_x_tp": saver("save_x_tp"), "qha.basic_io.out.save_x_tv": saver("save_x_tv"),
                  "builtins.open": open_, "yaml.safe_load": safe_load, "cij.data:get_data_fname": lambda ev, a, k: PathV(a[0], packaged=True)})
-    ev = Ev(model, seeds, intr, ctx=ctx)
-    vol = Obj(VOLBASE, {"calculator": calc})
-    prs = Obj(PRSBASE, {"calculator": calc})
+    ev = Ev(model, seeds, intr, attr_hook=qha_attr_hook, ctx=ctx)
+    vol = ev.construct(VOLBASE, [calc], {})
+    prs = ev.construct(PRSBASE, [calc], {})
     calc.attrs["volume_based_result"] = vol
     calc.attrs["pressure_based_result"] = prs
     return ev, calc, vol, prs, calls
@@ -196,8 +196,42 @@ def run_write(ctx, model, base_name, config):
     ev, calc, vol, prs, calls = setup(ctx, model)
     base = vol if base_name == "tv" else prs
     writer = ev.construct(f"{WR}:ResultsWriter", [base], {})
-    ev.call(ev.get_attr(writer, "write"), [config], {})
+    for c in (config if isinstance(config, list) else [config]):
+        ev.call(ev.get_attr(writer, "write"), [c], {})
     return ev, calc, vol, prs, calls
+
+
+def sig_of(calls):
+    return sorted((fn, str(b["outfile_name"]), sp.srepr(sp.sympify(as_sym(b.get("df", b.get("x")))))) for fn, b in calls)
+
+
+def r_sequence(ctx, model):
+    """several keywords written in one run (same interface, same writer) give the files of the separate runs, in any order"""
+    w = model.where(f"{WR}:ResultsWriter.write")
+    seqs = [["cij_s", "cij_t"], ["cij_t", "cij_s"], ["bm_V", "bm_R", "bm_VRH", "G_V", "G_R", "G_VRH"], ["vp", "vs", "cij"], ["cij_t", "v_p", "cij_s"]]
+    for base_name in ("tp", "tv"):
+        single = {}
+        for seq in seqs:
+            for kw in seq:
+                if kw not in single:
+                    single[kw] = sig_of(run_write(ctx, model, base_name, kw)[4])
+            both = sig_of(run_write(ctx, model, base_name, list(seq))[4])
+            want = sorted(x for kw in seq for x in single[kw])
+            ctx.check(both == want, f"{base_name}: writing {seq} in one run = writing each alone", w, expected=f"{len(want)} files with their own content",
+                      found=f"{len(both)} files; {sum(1 for a, b in zip(both, want) if a != b)} differ",
+                      explanation=f"on the {base_name} interface the content of a file depends on which keywords were written before it in the same run "
+                                  f"(e.g. adiabatic and isothermal tables share a cache)", key=f"sequence.{base_name}.{'-'.join(seq)}")
+    # write_output twice = once (no state carried between calls)
+    ev, calc, vol, prs, calls = setup(ctx, model)
+    calc.attrs["config"] = DictV({"output": DictV({"pressure_base": Tup(["cij_t", "cij_s", "v"], "list"), "volume_base": Tup(["p", "cij"], "list")})})
+    f = model.func(f"{CALC}.write_output")
+    ev.call_def(f, model.mods["cij.core.calculator"], f"{CALC}.write_output", [calc], {})
+    first = sig_of(calls)
+    del calls[:]
+    ev.call_def(f, model.mods["cij.core.calculator"], f"{CALC}.write_output", [calc], {})
+    ctx.check(sig_of(calls) == first and len(first) == 21 * 3 + 2, "write_output called twice writes the same files with the same content", model.where(f"{CALC}.write_output", f),
+              expected=f"{21 * 3 + 2} files, identical both times", found=f"{len(first)} then {len(calls)} files",
+              explanation="a second write_output in the same process produces different files", key="write_output.twice")
 
 
 def expected_value(ev, vol, prs, base_name, prop, key=None):
@@ -350,5 +384,6 @@ RULES = [
     ("R15.1,3,4,7", "writer-rule registry: unique keywords, fields, placeholders, adiabatic/isothermal consistency, props resolve", r_registry),
     ("R15.2,5", "every keyword and alias on both bases: file names, written value in the documented unit, labels (folded through write_table)", r_write),
     ("R15.6", "user fname / unit overrides", r_override),
+    ("R15.9", "keywords written in one run give the files of separate runs (any order); write_output twice = once", r_sequence),
     ("R15.8", "write_output / write_variables pairing; installed writers drop the four guard rows", r_output),
 ]
